@@ -226,16 +226,17 @@ impl Display for RegExp<'_> {
         if self.config.is_verbose_mode_enabled {
             regexp = regexp
                 .replace('#', "\\#")
-                .replace(
-                    [
-                        ' ', ' ', ' ', ' ', ' ', ' ', ' ', '\u{85}', '\u{a0}', '\u{1680}',
-                        '\u{2000}', '\u{2001}', '\u{2002}', '\u{2003}', '\u{2004}', '\u{2005}',
-                        '\u{2006}', '\u{2007}', '\u{2008}', '\u{2009}', '\u{200a}', '\u{2028}',
-                        '\u{2029}', '\u{202f}', '\u{205f}', '\u{3000}',
-                    ],
-                    "\\s",
-                )
                 .replace(' ', "\\ ");
+
+            // Whitespace is ignored in verbose mode, so each remaining whitespace
+            // character is replaced by the escape sequence of exactly this character.
+            for c in [
+                '\u{85}', '\u{a0}', '\u{1680}', '\u{2000}', '\u{2001}', '\u{2002}', '\u{2003}',
+                '\u{2004}', '\u{2005}', '\u{2006}', '\u{2007}', '\u{2008}', '\u{2009}', '\u{200a}',
+                '\u{2028}', '\u{2029}', '\u{202f}', '\u{205f}', '\u{3000}',
+            ] {
+                regexp = regexp.replace(c, &c.escape_unicode().to_string());
+            }
         }
 
         write!(
